@@ -7,7 +7,7 @@ from .common import Oracle, Suite, errname, hx, merge
 from .formats_common import cps
 
 GEN_UNITS = ["ShaCrypt", "B64", "MiscTables", "PyUnicode", "LibpassAll"]
-LEAN_TARGETS = ["PasslibVerif.Props.C20"]
+LEAN_TARGETS = ["PasslibVerif.Props.C20", "PasslibVerif.Props.C20Pbkdf", "PasslibVerif.Props.C20Bcrypt"]
 ASSUMPTIONS = [
     "hashlib.pbkdf2_hmac and the bcrypt package are external code shared by both libraries; for them the model's digest is the RFC 8018 / bcrypt "
     "specification (Spec.Pbkdf, compared on every run) and interop is established at the string level plus differential runs",
@@ -163,6 +163,45 @@ def correspond(ctx):
                 except Exception as e:  # noqa: BLE001
                     ans = "err " + errname(e)
                 s_lp.add_raw(f"lp bcsha {R} verify {cps(c)} {ck}", ans, "bcsha:verify")
+    # bcrypt: BcryptHasher's decisions over inspect_bcrypt_hash; bcrypt.checkpw is a parameter of the model — the harness asks the package
+    # directly (without the hasher in between) and hands the answer to the model
+    from libpass.hashers.bcrypt import BcryptHasher
+    from passlib.hash import bcrypt as pl_bcrypt
+
+    for _ in range(n // 3):
+        R = rng.choice([4, 5])
+        lp = BcryptHasher(rounds=R, prefix=rng.choice(["2b", "2a"]))
+        secret = rand_secret(rng)[:70].replace(b"\x00", b"\x01")
+        hs = lp.hash(secret)
+        cost = hs[4:6]
+        variants = [hs, hs.replace("$2b$", "$2y$").replace("$2a$", "$2y$"), "$2x$" + hs[4:], "$2$" + hs[4:], "$2c$" + hs[4:], hs.replace(f"${cost}$", f"${int(cost)}$"),
+                    hs.replace(f"${cost}$", f"$0{cost}$"), hs.replace(f"${cost}$", "$99$"), hs.replace(f"${cost}$", "$03$"), hs.replace(f"${cost}$", "$\u0660\u0664$"),
+                    hs.replace(f"${cost}$", "$$"), hs[:-1], hs + "x", hs + "\n", hs[:-1] + "\n", hs[:-1] + "\xe9", hs[:-1] + ("A" if hs[-1] != "A" else "B"), "", "$", "$2b$",
+                    hs[1:], " " + hs, BcryptSHA256Hasher(rounds=4).hash("x"), "$5$abc$" + "a" * 43]
+        for ident in ("2", "2a", "2b", "2y"):
+            try:
+                variants.append(pl_bcrypt.using(rounds=4, ident=ident).hash(secret))
+            except Exception:  # noqa: BLE001
+                pass
+        for c in variants:
+            for RR in (R, R + 1):
+                h2 = BcryptHasher(rounds=RR)
+                for op, fn in (("identify", h2.identify), ("needs", h2.needs_update)):
+                    try:
+                        ans = b(fn(c))
+                    except Exception as e:  # noqa: BLE001
+                        ans = "err " + errname(e)
+                    s_lp.add_raw(f"lp bc {RR} {op} {cps(c)}", ans, f"bc:{op}")
+            for sec in (secret, secret + b"x"):
+                try:
+                    ck = str(int(wheel.checkpw(sec, c.encode())))
+                except ValueError:
+                    ck = "E"
+                try:
+                    ans = b(lp.verify(c, sec))
+                except Exception as e:  # noqa: BLE001
+                    ans = "err " + errname(e)
+                s_lp.add_raw(f"lp bc {R} verify {cps(c)} {ck}", ans, "bc:verify")
     cross_matrix(ctx, o_x)
     return merge(s_lp, s_cl, o_x)
 
